@@ -54,9 +54,9 @@ def rep_term(r):
 def scen_term(sp):
     res = []
     for r in sp["resolvers"]:
-        stages = ["mkStage %s %s" % (clist([out_term(o) for o in s["outs"]]),
-                                     clist([rep_term(x) for x in s["rep"]]))
-                  for s in r["stages"]]
+        stages = ["mkStage %s %s %s" % (clist([out_term(o) for o in s["outs"]]),
+                                        clist([rep_term(x) for x in s["rep"]]), cN(wl))
+                  for s, wl in zip(r["stages"], r["watch"])]
         res.append("mkSpec %s %s" % (cN(r["key"]), clist(stages)))
     return "(mkScen %s %s %s %s %s %s %s %s %s)" % (
         KINDS[sp["kind"]], cbool(sp["userfc"]), cbool(sp["empty"]), cbool(sp["anchor"]),
@@ -101,14 +101,29 @@ def case_term(c):
             items.append("ICrash")
         else:
             items.append("ISnap " + snap_term(sp, it["d"]))
-    return "(mkCase %s %s %s %s %s)" % (scen_term(sp), clist(items), snap_term(sp, c["end"]),
-                                        clist([out_term(o) for o in c["outs"]]),
-                                        clist(inc_terms(sp)))
+    return "(mkCase %s %s %s %s %s %s)" % (scen_term(sp), clist(items), snap_term(sp, c["end"]),
+                                           clist([out_term(o) for o in c["outs"] if o[0] != 8]),
+                                           clist(inc_terms(sp)), clist(watch_terms(c)))
+
+
+def watch_terms(c):
+    """real waits of the implementation: (key, persisted progress, level)."""
+    ptabs = {r["key"]: r["ptab"] for r in c["spec"]["resolvers"]}
+    res = set()
+    for key, typ, inc, rs, pre, level in c.get("watch", []):
+        tab = ptabs.get(key)
+        k = con_key(typ, inc, rs, pre)
+        if tab is None or k not in tab:
+            raise Unmapped("a resolver goroutine waits on an outpoint (level %s) that belongs to "
+                           "no persisted contract of the scenario (key=%s, contract=%s)"
+                           % (level, key, k))
+        res.add("(%s, %s, %s)" % (cN(key), cnat(tab[k]), cN(level)))
+    return sorted(res)
 
 
 # received-htlc resolver kinds -> (two-stage, claim branch, output index of ClaimOutpoint)
 INC_KINDS = {"in_claim_remote": (False, True, None), "in_expire_remote": (False, False, None),
-             "in_claim_local2": (True, True, 0), "in_expire_local2": (True, False, 1)}
+             "in_claim_local2": (True, True, "pos"), "in_expire_local2": (True, False, 77)}
 
 
 def inc_terms(sp):
@@ -119,7 +134,8 @@ def inc_terms(sp):
         if r["kind"] in INC_KINDS:
             two, claim, cidx = INC_KINDS[r["kind"]]
             res.append("(mkIP %s %s %s %s, %s)" % (cbool(two), cN(r["key"]), cN(r["idx"]),
-                                                   cN(r["key"] if cidx is None else cidx),
+                                                   cN(r["key"] if cidx is None else
+                                                      r["pos"] if cidx == "pos" else cidx),
                                                    cbool(claim)))
     return res
 
@@ -201,11 +217,19 @@ def predicate(c, base):
             fails.append(("C13_incoming_no_contradiction", "C13 contradiction-report " + name,
                           "received htlc %s reported both claimed and timed out: %s"
                           % (r["idx"], sorted(got))))
+    # every outpoint a resolver is parked on at quiescence exists on chain
+    # with the script it was registered with (kind 8: reported by the chain)
+    for o in c["outs"]:
+        if o[0] == 8:
+            what = {1: "waits on nonexistent outpoint", 2: "waits on an outpoint with another pkScript"}
+            fails.append(("C13_progress", "C13 waits-on-nonexistent-outpoint " + name,
+                          "resolver %s %s (the spend notification can never fire)"
+                          % (o[2], what.get(o[1], o[1]))))
     # nothing the uninterrupted run does not do
     # (ForceCloseChan / PublishTx calls, kinds 4 and 5, are compared with the
     # model only: a restart may legitimately re-publish)
-    bo = {tuple(o) for o in base["outs"] if o[0] not in (4, 5)}
-    co = {tuple(o) for o in c["outs"] if o[0] not in (4, 5)}
+    bo = {tuple(o) for o in base["outs"] if o[0] not in (4, 5, 8)}
+    co = {tuple(o) for o in c["outs"] if o[0] not in (4, 5, 8)}
     if co - bo:
         fails.append(("C13_outputs_sound", "C13 extra-output " + name,
                       "outputs %s never happen in the uninterrupted run" % sorted(co - bo)))
@@ -361,7 +385,10 @@ def run(ctx):
                        "disagreeing_items": items,
                        "legend": "index of the first database snapshot that is not a model step; "
                                  "9000 final database, 9001 output set, 9002 scenario ill-formed, "
-                                 "9003 received-htlc script differs from RestartIncModel.inc_script",
+                                 "9003 received-htlc script differs from RestartIncModel.inc_script, "
+                                 "9004 a resolver waited on another outpoint than the model's stage says "
+                                 "(case.watch: key, contract, level 0 commitment output / 1 its "
+                                 "second-level output / 8 wrong script / 9 not on chain)",
                        "trace": c["trace"], "outs": c["outs"]},
                       signature="C13 restart mismatch " + c["spec"]["name"],
                       failing_input=bool(predicate(c, base[c["spec"]["name"]])))
